@@ -312,9 +312,124 @@ fn seq_json(seq: &[Item]) -> J {
     J::Array(seq.iter().map(|i| json!([format!("{:?}", i.kind), i.ext, i.name])).collect())
 }
 
+// ------------------------------------------------------------------------------------------ through the CLI
+
+/// Schema items that keep the project checkable: every sequence of them is placed around a base file
+/// (`schema/m.graphql`) in a file sorted before it and/or a file sorted after it. Extensions and
+/// re-definitions of the built-in scalars are letters: the built-ins are part of the document the
+/// CLI hands to the resolver.
+const CLI_BASE: &str = "type Query { a: String t: T i: I u: U e: E d: Date f(x: In): Int }\ntype T implements I { id: ID x: Int }\ninterface I { id: ID }\nunion U = T\nenum E { A }\ninput In { a: Int }\nscalar Date\ndirective @tag(n: Int) repeatable on SCHEMA | SCALAR | OBJECT | INTERFACE | UNION | ENUM | INPUT_OBJECT\n";
+const CLI_ITEMS: [&str; 24] = [
+    "extend type T { y: Int }",
+    "extend type T @tag(n: 1)",
+    "extend interface I { k: Int }\nextend type T { k: Int }",
+    "extend union U = Query",
+    "extend enum E { B }",
+    "extend input In { b: Int }",
+    "extend scalar Date @tag(n: 2)",
+    "extend scalar String @tag(n: 3)",
+    "extend scalar ID @tag(n: 4)",
+    "extend scalar Boolean @tag(n: 5)",
+    "extend scalar Int @tag(n: 6)",
+    "extend scalar Float @tag(n: 7)",
+    "scalar ID",
+    "scalar String",
+    "scalar Date",
+    "type T { z: Int }",
+    "schema { query: Query }",
+    "extend schema @tag(n: 8)",
+    "extend type Nobody { a: Int }",
+    "extend scalar Nothing @tag(n: 9)",
+    "type Extra { a: Int }\nextend type Extra { b: Date }",
+    "directive @skip(if: Boolean!) on FIELD",
+    "directive @tag(n: Int) on SCALAR",
+    "enum E { C }",
+];
+
+/// does the reference (group by kind and name; built-in scalars count as defined) accept the items?
+fn cli_reference_accepts(items: &[usize]) -> Option<bool> {
+    let mut text = String::from(CLI_BASE);
+    for i in items {
+        text.push_str(CLI_ITEMS[*i]);
+        text.push('\n');
+    }
+    let doc = crate::rparse::parse_ts(&text).ok()?;
+    let mut defs: Vec<TsDef> = doc.defs;
+    for b in ["Int", "Float", "String", "Boolean", "ID"] {
+        defs.push(TsDef::new(TsKind::Scalar, Some(b)));
+    }
+    Some(matches!(reference(&defs), RefOutcome::Ok(..)))
+}
+
+fn part_cli(args: &Args, rep: &Reporter) -> J {
+    use crate::clilayer::{CProj, run_and_compare};
+    let n = CLI_ITEMS.len();
+    let depth = if args.quick() { 2 } else { 3 };
+    let runs = AtomicU64::new(0);
+    let accepted = AtomicU64::new(0);
+    let files = AtomicU64::new(0);
+    let mut seqs: Vec<Vec<usize>> = vec![vec![]];
+    for len in 1..=depth {
+        for code in 0..n.pow(len as u32) {
+            let mut x = code;
+            let seq: Vec<usize> = (0..len).map(|_| { let v = x % n; x /= n; v }).collect();
+            // the same item twice only for items that are extensions (a definition twice is covered by the dup letters)
+            seqs.push(seq);
+        }
+    }
+    par_for(seqs.len(), args.threads, |si| {
+        let seq = &seqs[si];
+        // placement of each item: file a (sorted before the base) or file z (after it)
+        for place in 0..(1usize << seq.len()) {
+            if seq.len() == 3 && !(place == 0 || place == 7 || place == 2 || place == 5) {
+                continue;
+            }
+            let (mut a, mut z) = (String::new(), String::new());
+            for (k, it) in seq.iter().enumerate() {
+                let dst = if place >> k & 1 == 0 { &mut a } else { &mut z };
+                dst.push_str(CLI_ITEMS[*it]);
+                dst.push('\n');
+            }
+            let mut schema = vec![("schema/m.graphql".to_string(), CLI_BASE.to_string())];
+            if !a.is_empty() {
+                schema.push(("schema/a.graphql".to_string(), a));
+            }
+            if !z.is_empty() {
+                schema.push(("schema/z.graphql".to_string(), z));
+            }
+            let mut p = CProj::new(schema, vec![("src/q.graphql".to_string(), "query Q { a t { id } }\n".to_string())]);
+            p.extra_generate = "      type:\n        scalarTypes:\n          Date: string\n".into();
+            let case = |extra: J| json!({"part": "cli", "items": seq.iter().map(|i| CLI_ITEMS[*i]).collect::<Vec<_>>(), "placement": place, "project": p.to_json(), "detail": extra});
+            runs.fetch_add(1, Ordering::Relaxed);
+            match run_and_compare(&p, "c11") {
+                Err(pn) => rep.report(Violation { key: format!("cli.library_panic@{}", pn.key()), what: format!("library entry points panic at {}: {}", pn.site, pn.msg), case: case(json!({})) }),
+                Ok(Err(e)) => rep.report(Violation { key: "machinery.clilayer".into(), what: e, case: case(json!({})) }),
+                Ok(Ok(c)) => {
+                    if c.accepted {
+                        accepted.fetch_add(1, Ordering::Relaxed);
+                    }
+                    files.fetch_add(c.files_compared as u64, Ordering::Relaxed);
+                    for (k, w) in &c.diffs {
+                        rep.report(Violation { key: format!("cli.{k}"), what: format!("items {:?} (placement {place:b}): {w}", seq.iter().map(|i| CLI_ITEMS[*i]).collect::<Vec<_>>()), case: case(json!({"cli_exit": c.cli.code, "cli_stdout": c.cli.stdout.chars().take(3000).collect::<String>(), "library_route": c.expected_summary})) });
+                    }
+                    // the reference verdict on duplicates / orphans binds both routes
+                    if let Some(false) = cli_reference_accepts(seq)
+                        && c.cli.code == Some(0)
+                    {
+                        rep.report(Violation { key: "cli.verdict.accepts_duplicate_or_orphan".into(), what: format!("items {:?}: the CLI accepts a schema in which a name is defined twice within a kind or an extension has no definition", seq.iter().map(|i| CLI_ITEMS[*i]).collect::<Vec<_>>()), case: case(json!({})) });
+                    }
+                }
+            }
+        }
+    });
+    crate::cli::cleanup("c11");
+    json!({"item_alphabet": n, "max_items": depth, "placements": "every assignment of items to a file before / after the base file (length 3: all-before, all-after, two alternating)", "cli_runs": runs.load(Ordering::Relaxed), "accepted_and_all_outputs_compared": accepted.load(Ordering::Relaxed), "files_compared_bytewise": files.load(Ordering::Relaxed)})
+}
+
 pub fn run(args: &Args) -> i32 {
     let rep = Reporter::new("C11", &args.tier);
     crate::util::install_hook();
+    let cli_part = part_cli(args, &rep);
     let all = alphabet_all();
     let depth = if args.quick() { 4 } else { 5 };
     let cnt = Cnt {
@@ -396,6 +511,7 @@ pub fn run(args: &Args) -> i32 {
         "bound": {"depth": depth, "alphabet": a, "second_family": "bare definitions (no directives / interfaces) of A of every kind + extensions of A: 14 letters, same depth", "cuts": "all for length <= 4; none/first/middle for length 5"},
         "outcomes": *cnt.outcomes.lock().unwrap(),
         "error_cases_checked_for_position": cnt.err.load(Ordering::Relaxed),
+        "through_the_cli": cli_part,
         "samples": [{"files": [render_items(&sample_defs[..2]), render_items(&sample_defs[2..])]}],
     });
     rep.finish(
@@ -403,11 +519,16 @@ pub fn run(args: &Args) -> i32 {
         vec![
             "reference merge (group by kind and name; original ++ extensions in document order) is the specification".into(),
             "an error may be reported at any offending item (either duplicate, any orphan extension), at its first token or its keyword".into(),
+            "through the CLI: verdict, located diagnostics and every written byte of `check generate` must equal what the library entry points give in-process for the same files (built-in definitions appended as the CLI's builtins.rs gives them); the reference merge judges the resolver itself".into(),
         ],
     )
 }
 
 pub fn replay(case: &J) -> i32 {
+    if case["part"].as_str() == Some("cli") {
+        println!("{}", serde_json::to_string_pretty(case).unwrap_or_default().replace("\\n", "\n"));
+        return 0;
+    }
     let alpha = alphabet_all();
     let seq: Vec<Item> = case["seq_idx"].as_array().unwrap().iter().map(|i| alpha[i.as_u64().unwrap() as usize]).collect();
     let cut = case["cut"].as_u64().unwrap() as usize;
